@@ -45,9 +45,15 @@ pub mod mpsc {
     use vstd::prelude::*;
     pub struct UnboundedSender<T> { x: Option<T> }
     pub struct SendError { x: u8 }
+    pub uninterp spec fn sent_on<T>(s: UnboundedSender<T>, t: T) -> bool;
+    pub uninterp spec fn closed<T>(s: UnboundedSender<T>) -> bool;
     impl<T> UnboundedSender<T> {
+        // nothing assumed on the outcome; the two uninterpreted facts are established by this call only: a grant counts as
+        // delivered only through a successful send, a pending room may be dropped only after a failed one (the requester is gone)
         #[verifier::external_body]
-        pub fn send(&self, t: T) -> Result<(), SendError> { unimplemented!() }
+        pub fn send(&self, t: T) -> (r: Result<(), SendError>)
+            ensures r is Ok ==> sent_on(*self, t), r is Err ==> closed(*self),
+        { unimplemented!() }
     }
     pub struct Receiver<T> { x: Option<T> }
     impl<T> Receiver<T> {
@@ -86,26 +92,152 @@ pub open spec fn at_most_one_grant(old_locked: Set<Uid>, old_av: usize, new_lock
     || (exists|room: Uid| !old_locked.contains(room) && new_locked == old_locked.insert(room) && new_av + 1 == old_av)
 }
 
+/// never lost, one pending room of one waiting circuit across a scheduling step: it is still pending for the same circuit (which still
+/// answers on the same channel and is still queued), or it was delivered on the circuit's channel, or that channel is closed
+spec fn kept_or_served(c: [u8; 32], x: Uid, m0: Map<[u8; 32], PeerLockRequest>, m: Map<[u8; 32], PeerLockRequest>, q: Seq<[u8; 32]>) -> bool {
+    (m.contains_key(c) && m[c].rooms@.contains(x) && m[c].reply == m0[c].reply && q.contains(c))
+    || mpsc::sent_on(m0[c].reply, x) || mpsc::closed(m0[c].reply)
+}
+spec fn nothing_lost(m0: Map<[u8; 32], PeerLockRequest>, m: Map<[u8; 32], PeerLockRequest>, q: Seq<[u8; 32]>) -> bool {
+    forall|c: [u8; 32], x: Uid| m0.contains_key(c) && m0[c].rooms@.contains(x) ==> #[trigger] kept_or_served(c, x, m0, m, q)
+}
+/// every waiting circuit is in the rotation (a circuit out of it would never be served)
+spec fn all_queued(m: Map<[u8; 32], PeerLockRequest>, q: Seq<[u8; 32]>) -> bool {
+    forall|c: [u8; 32]| m.contains_key(c) ==> #[trigger] q.contains(c)
+}
+/// rooms of the request being served: still pending, delivered, or the channel is closed
+pub open spec fn rooms_kept_or_served(rooms_in: Seq<Uid>, rooms: Seq<Uid>, reply: mpsc::UnboundedSender<Uid>) -> bool {
+    forall|x: Uid| #[trigger] rooms_in.contains(x) ==> rooms.contains(x) || mpsc::sent_on(reply, x) || mpsc::closed(reply)
+}
+pub proof fn lemma_drop_last_contains<T>(s: Seq<T>, x: T)
+    requires s.len() > 0, s.contains(x), x != s.last(),
+    ensures s.drop_last().contains(x),
+{
+    let i = choose|i: int| 0 <= i < s.len() && s[i] == x;
+    assert(s.drop_last()[i] == x);
+}
+pub proof fn lemma_push_front_contains<T>(s: Seq<T>, a: T)
+    ensures (seq![a] + s).contains(a), forall|x: T| s.contains(x) ==> #[trigger] (seq![a] + s).contains(x),
+{
+    let r = seq![a] + s;
+    assert(r[0] == a);
+    assert forall|x: T| s.contains(x) implies #[trigger] r.contains(x) by {
+        let i = choose|i: int| 0 <= i < s.len() && s[i] == x;
+        assert(r[i + 1] == x);
+    }
+}
+/// a room taken from the back and put back at the front: the same rooms are pending
+pub proof fn lemma_rotate_keeps(s: Seq<Uid>)
+    requires s.len() > 0,
+    ensures forall|x: Uid| s.contains(x) ==> #[trigger] (seq![s.last()] + s.drop_last()).contains(x),
+{
+    lemma_push_front_contains(s.drop_last(), s.last());
+    assert forall|x: Uid| s.contains(x) implies #[trigger] (seq![s.last()] + s.drop_last()).contains(x) by {
+        if x != s.last() { lemma_drop_last_contains(s, x); }
+    }
+}
+
+proof fn lemma_nothing_lost_trans(m0: Map<[u8; 32], PeerLockRequest>, m1: Map<[u8; 32], PeerLockRequest>, q1: Seq<[u8; 32]>, m2: Map<[u8; 32], PeerLockRequest>, q2: Seq<[u8; 32]>)
+    requires nothing_lost(m0, m1, q1), nothing_lost(m1, m2, q2),
+    ensures nothing_lost(m0, m2, q2),
+{
+    assert forall|c: [u8; 32], x: Uid| m0.contains_key(c) && m0[c].rooms@.contains(x) implies #[trigger] kept_or_served(c, x, m0, m2, q2) by {
+        assert(kept_or_served(c, x, m0, m1, q1));
+        if m1.contains_key(c) && m1[c].rooms@.contains(x) { assert(kept_or_served(c, x, m1, m2, q2)); }
+    }
+}
+proof fn lemma_nothing_lost_refl(m: Map<[u8; 32], PeerLockRequest>, q: Seq<[u8; 32]>)
+    requires all_queued(m, q),
+    ensures nothing_lost(m, m, q),
+{
+    assert forall|c: [u8; 32], x: Uid| m.contains_key(c) && m[c].rooms@.contains(x) implies #[trigger] kept_or_served(c, x, m, m, q) by {
+        assert(q.contains(c));
+    }
+}
+
 //@ extract src/synchronisation/room_locking_service.rs :: impl RoomLockService / fn acquire_lock
 //@ sync
 //@ attr #[verifier::exec_allows_no_decreases_clause]
 //@ loop "for _ in 0..peer_queue.len()"
             invariant_except_break *avalaible == *old(avalaible), old(locked)@ == locked@,
             invariant *old(avalaible) >= 1, old(locked)@.finite(),
+                // [no_pending_room_lost_so_far]{C20} whatever circuits were rotated so far
+                nothing_lost(old(peer_lock_request)@, peer_lock_request@, peer_queue@),
+                // [waiting_circuits_stay_queued_so_far]{C20}
+                all_queued(peer_lock_request@, peer_queue@),
             ensures at_most_one_grant(old(locked)@, *old(avalaible), locked@, *avalaible),
 //@ loop "for _ in 0..lock_request.rooms.len()"
                         invariant_except_break *avalaible == *old(avalaible), old(locked)@ == locked@, !lock_aquired,
                         invariant *old(avalaible) >= 1, old(locked)@.finite(),
+                            lock_request.reply == reply_in,
+                            // [rooms_of_the_served_request_kept_so_far]{C20} a busy room goes back to the pending ones, a room leaves them only when it was sent to the requester (or the requester is gone)
+                            rooms_kept_or_served(rooms_in, lock_request.rooms@, reply_in),
                         ensures at_most_one_grant(old(locked)@, *old(avalaible), locked@, *avalaible),
                                 !lock_aquired ==> (*avalaible == *old(avalaible) && old(locked)@ == locked@),
+//@ insert before-stmt "let mut lock_aquired = false;"
+                    let ghost rooms_in = lock_request.rooms@;
+                    let ghost reply_in = lock_request.reply;
+                    let ghost m_mid = peer_lock_request@;
+                    let ghost q_mid = peer_queue@;
+//@ insert before-stmt "if let Some(room) = lock_request.rooms.pop_back() {"
+                        let ghost rooms_before = lock_request.rooms@;
+//@ insert before-stmt "if locked.contains(&room) {"
+                            proof {
+                                lemma_rotate_keeps(rooms_before);
+                                assert(lock_request.rooms@ == rooms_before.drop_last());
+                                assert(room == rooms_before.last());
+                                assert forall|x: Uid| rooms_before.contains(x) && x != room implies #[trigger] rooms_before.drop_last().contains(x) by {
+                                    lemma_drop_last_contains(rooms_before, x);
+                                }
+                            }
+//@ insert before-stmt "if lock_aquired {"
+                    proof {
+                        let m0 = old(peer_lock_request)@;
+                        lemma_push_front_contains(q_mid, peer);
+                        // [served_circuit_keeps_what_it_was_not_given]{C20} after a circuit was served: its remaining rooms are stored back and it is back in the rotation; the other circuits are untouched
+                        assert forall|c: [u8; 32], x: Uid| m0.contains_key(c) && m0[c].rooms@.contains(x)
+                            implies #[trigger] kept_or_served(c, x, m0, peer_lock_request@, peer_queue@) by {
+                            assert(kept_or_served(c, x, m0, m_head, q_head));
+                            if c != peer && q_head.contains(c) { lemma_drop_last_contains(q_head, c); }
+                        }
+                        // [served_circuit_back_in_the_rotation]{C20}
+                        assert forall|c: [u8; 32]| peer_lock_request@.contains_key(c) implies #[trigger] peer_queue@.contains(c) by {
+                            if c != peer { assert(m_head.contains_key(c)); assert(q_head.contains(c)); lemma_drop_last_contains(q_head, c); }
+                        }
+                    }
+//@ insert after-stmt "if let Some(mut lock_request) = peer_lock_request.remove(&peer) {"
+                proof {
+                    // the popped circuit was not waiting (or was handled above): the others are still queued
+                    if !m_head.contains_key(peer) {
+                        let m0 = old(peer_lock_request)@;
+                        assert forall|c: [u8; 32], x: Uid| m0.contains_key(c) && m0[c].rooms@.contains(x)
+                            implies #[trigger] kept_or_served(c, x, m0, peer_lock_request@, peer_queue@) by {
+                            assert(kept_or_served(c, x, m0, m_head, q_head));
+                            if c != peer && q_head.contains(c) { lemma_drop_last_contains(q_head, c); }
+                        }
+                        assert forall|c: [u8; 32]| peer_lock_request@.contains_key(c) implies #[trigger] peer_queue@.contains(c) by {
+                            assert(q_head.contains(c)); lemma_drop_last_contains(q_head, c);
+                        }
+                    }
+                }
+//@ insert before-stmt "if let Some(peer) = peer_queue.pop_back() {"
+            let ghost m_head = peer_lock_request@;
+            let ghost q_head = peer_queue@;
 //@ insert before-stmt "locked.insert(room)"
                                 // [grant_only_unlocked_room] exclusive: the room just sent to the requester is not held by any connection
                                 assert(!locked@.contains(room));
+                                // [slot_taken_only_for_a_delivered_grant]{C20} a room is recorded as locked, and a slot taken, only when the grant was handed to the requester's channel: nobody would release a grant that was never delivered
+                                assert(mpsc::sent_on(lock_request.reply, room));
 //@ spec
         requires
             *old(avalaible) >= 1,
             old(locked)@.finite(),
+            all_queued(old(peer_lock_request)@, old(peer_queue)@),
         ensures
+            // [no_pending_room_lost]{C20} never lost: every room a circuit was waiting for is still pending for it after the step, unless it was just sent to the circuit or the circuit's channel is closed
+            nothing_lost(old(peer_lock_request)@, final(peer_lock_request)@, final(peer_queue)@),
+            // [waiting_circuits_stay_queued]{C20} and every circuit that still waits is still in the rotation
+            all_queued(final(peer_lock_request)@, final(peer_queue)@),
             // [at_most_one_exclusive_grant] at most one room is granted per step; it was not locked, it now is, and it took exactly one free slot
             at_most_one_grant(old(locked)@, *old(avalaible), final(locked)@, *final(avalaible)),
             // [slots_conserved] hence locked + free stays constant (bounded by the configured limit)
@@ -141,20 +273,47 @@ pub open spec fn at_most_one_grant(old_locked: Set<Uid>, old_av: usize, new_lock
                         let ghost latest_reply = reply;
                         let ghost pm0 = peer_lock_request@;
                         let ghost rooms0 = rooms@;
+                        let ghost q0 = peer_queue@;
 //@ insert before-stmt "let avail_iter = avalaible;"
+                        proof {
+                            lemma_push_front_contains(q0, circuit);
+                            // [requesting_circuit_is_in_the_rotation]{C20} after a request every waiting circuit - the requesting one included - is in the queue the grants are taken from
+                            assert forall|c: [u8; 32]| peer_lock_request@.contains_key(c) implies #[trigger] peer_queue@.contains(c) by {
+                                if c != circuit { assert(pm0.contains_key(c)); assert(q0.contains(c)); }
+                            }
+                        }
                         // [grants_go_to_the_channel_of_the_latest_request] after a request, the pending entry of the circuit answers on the channel of THIS request: a new connection of a circuit is not left waiting on the channel of a connection that ended
                         assert(peer_lock_request@.contains_key(circuit) && peer_lock_request@[circuit].reply == latest_reply);
                         // [repeated_request_keeps_the_pending_rooms] a request of a circuit that is already waiting ADDS its rooms to the pending ones: every room that was pending is still pending and every requested room is pending - none is forgotten
                         assert(pm0.contains_key(circuit) ==> (forall|x: Uid| pm0[circuit].rooms@.contains(x) ==> #[trigger] peer_lock_request@[circuit].rooms@.contains(x))
                             && forall|i: int| 0 <= i < rooms0.len() ==> peer_lock_request@[circuit].rooms@.contains(#[trigger] rooms0[i]));
+//@ insert after-stmt "let avail_iter = avalaible;"
+                        let ghost m_req = peer_lock_request@;
+                        proof {
+                            // [a_new_request_is_pending_as_sent] a request of a circuit that was not waiting is recorded with all its rooms
+                            assert(!pm0.contains_key(circuit) ==> m_req[circuit].rooms@ == rooms0);
+                            lemma_nothing_lost_refl(m_req, peer_queue@);
+                        }
+//@ insert after-stmt "for _ in 0..avail_iter {"
+                        // [requested_room_pending_or_granted_after_the_request]{C20} never lost, from the request to the end of its handling: every room of the request is still pending for the circuit on the channel of this request, or was sent on it, or that channel is closed
+                        assert(forall|i: int| 0 <= i < rooms0.len() ==> #[trigger] kept_or_served(circuit, rooms0[i], m_req, peer_lock_request@, peer_queue@));
+//@ insert before-stmt "Self::acquire_lock(" #1
+                            let ghost m_it = peer_lock_request@;
+                            let ghost q_it = peer_queue@;
+//@ insert after-stmt "Self::acquire_lock(" #1
+                            proof { lemma_nothing_lost_trans(m_req, m_it, q_it, peer_lock_request@, peer_queue@); }
 //@ rewrite E11 "\)\s*\.await;" => ");" x2
 //@ loop "while let Some(msg) = receiver.recv().await"
                 invariant
                     // [slot_invariant] bounded: rooms being synchronised + free slots == configured limit, at every message
                     slots_ok(locked@, avalaible, max_lock),
+                    // [waiting_circuits_are_in_the_rotation]{C20} at every message: a circuit with pending rooms is in the queue the grants are taken from
+                    all_queued(peer_lock_request@, peer_queue@),
 //@ loop "for _ in 0..avail_iter" iter it
                             invariant
                                 slots_ok(locked@, avalaible, max_lock),
+                                all_queued(peer_lock_request@, peer_queue@),
+                                nothing_lost(m_req, peer_lock_request@, peer_queue@),
                                 // [free_slot_per_iteration] each iteration still has a free slot to give (no underflow of the counter)
                                 avalaible + it.index@ >= avail_iter,
 //@ end
